@@ -88,10 +88,11 @@ func (t *c15mpTr) cond(e ast.Expr) (string, error) {
 	if t.haveM && c15sq(e) == "len("+t.mName+")>0" {
 		return "(cur_nonempty " + c15vn(t.mName) + ")", nil
 	}
-	if t.innerElem != "" && c15sq(e) == t.innerIdx+"<len("+t.innerOver+")-1" {
+	// (i is the index of the range loop over that slice: i != len-1 says the same as i < len-1, i >= len-1 as i == len-1)
+	if t.innerElem != "" && (c15sq(e) == t.innerIdx+"<len("+t.innerOver+")-1" || c15sq(e) == t.innerIdx+"!=len("+t.innerOver+")-1") {
 		return "(rt_more rest)", nil
 	}
-	if t.innerElem != "" && c15sq(e) == t.innerIdx+"==len("+t.innerOver+")-1" {
+	if t.innerElem != "" && (c15sq(e) == t.innerIdx+"==len("+t.innerOver+")-1" || c15sq(e) == t.innerIdx+">=len("+t.innerOver+")-1") {
 		return "(negb (rt_more rest))", nil
 	}
 	switch x := e.(type) {
